@@ -324,7 +324,7 @@ def run_calc_unit(unit):
             d = lo - lr
             robust = z3.And(z3.Or(d > 0.01 * lr, d < -0.01 * lr), lr > 0.01, lr < 1000)
             harness.discharge(log, c, f'{nm} finally reported by Economics.Calculate == reference formula on the reported quantities', lo == lr, zv,
-                              lambda inp, nm=nm: calc_concrete(cfg, inp, only=nm), timeout_ms=tmo, robust=robust, sample=(k == 1),
+                              lambda inp, nm=nm: calc_concrete(cfg, inp, only=nm), timeout_ms=tmo, robust=robust, sample=(k == 1), ctxfree_ms=tmo,
                               desc=f'{nm} [{cfg["kind"]} em={cfg["em"]} L={n} K={cfg["K"]} add-ons={cfg.get("addon", 0)}]')
     yield log.result()
 
